@@ -686,6 +686,9 @@ func (prop) Run(t *testing.T, tape *kernel.Tape, sc kernel.Scenario) *kernel.Res
 		}
 		c.consumerPart(in)
 	}
+	if sc.Name != "sweep" && len(env.Viol) == 0 {
+		c.callerDialect(text)
+	}
 	res.FromEnv(env)
 	return res
 }
@@ -761,6 +764,58 @@ func (c *run) producerPart(text []byte) *outcome {
 		c.agree(prim, peer, input(p.Src.Kind))
 	}
 	return prim
+}
+
+// callerDialect: separator, comment character and fields-per-record set by the caller on its own *csv.Reader /
+// *csv.Writer (and not given to the codec) must work like the same settings given to the codec as options.
+func (c *run) callerDialect(text []byte) {
+	o := c.p.Opts
+	if o.RComma == 0 && o.RComment == 0 && o.FPR == 0 && o.WComma == 0 {
+		return
+	}
+	c.env.Probe("caller-configured-dialect")
+	run := func(f func() error) (err error, pm string) {
+		pm = kernel.Catch(func() { err = f() })
+		return
+	}
+	// producer: reference = every option given to the codec, in-memory source
+	var ref, got bytes.Buffer
+	refErr, pm1 := run(func() error { return runtime.CSVProducer(o.codec()...).Produce(&ref, string(text)) })
+	oc := o
+	oc.RComma, oc.RComment, oc.FPR, oc.Explicit = 0, 0, 0, false
+	cr := csv.NewReader(bytes.NewReader(text))
+	if o.RComma != 0 {
+		cr.Comma = o.RComma
+	}
+	cr.Comment, cr.FieldsPerRecord = o.RComment, o.FPR
+	gotErr, pm2 := run(func() error { return runtime.CSVProducer(oc.codec()...).Produce(&got, cr) })
+	switch {
+	case pm1 != "" || pm2 != "":
+		c.env.Violate("C16/panic", "source:csv-reader:caller-dialect", "producer panicked: %s%s", pm1, pm2)
+	case (refErr == nil) != (gotErr == nil):
+		c.env.Violate("C16/kinds-disagree", "source:csv-reader:caller-dialect", "input %s: options given to the codec → err=%v; the same separator/comment/fields-per-record set on the caller's *csv.Reader → err=%v", clip(text), refErr, gotErr)
+	case refErr == nil && !bytes.Equal(ref.Bytes(), got.Bytes()):
+		c.env.Violate("C16/kinds-disagree", "source:csv-reader:caller-dialect", "input %s: options given to the codec produce %s; the same dialect set on the caller's *csv.Reader produces %s", clip(text), clip(ref.Bytes()), clip(got.Bytes()))
+	}
+	// consumer: the caller's *csv.Writer carries the separator
+	if o.WComma == 0 {
+		return
+	}
+	var ref2, got2 bytes.Buffer
+	refErr2, pm3 := run(func() error { return runtime.CSVConsumer(o.codec()...).Consume(bytes.NewReader(text), &ref2) })
+	ow := o
+	ow.WComma, ow.Explicit = 0, false
+	cw := csv.NewWriter(&got2)
+	cw.Comma = o.WComma
+	gotErr2, pm4 := run(func() error { return runtime.CSVConsumer(ow.codec()...).Consume(bytes.NewReader(text), cw) })
+	switch {
+	case pm3 != "" || pm4 != "":
+		c.env.Violate("C16/panic", "dest:csv-writer:caller-dialect", "consumer panicked: %s%s", pm3, pm4)
+	case (refErr2 == nil) != (gotErr2 == nil):
+		c.env.Violate("C16/kinds-disagree", "dest:csv-writer:caller-dialect", "input %s: writer separator given to the codec → err=%v; set on the caller's *csv.Writer → err=%v", clip(text), refErr2, gotErr2)
+	case refErr2 == nil && !bytes.Equal(ref2.Bytes(), got2.Bytes()):
+		c.env.Violate("C16/kinds-disagree", "dest:csv-writer:caller-dialect", "input %s: writer separator given to the codec delivers %s; set on the caller's *csv.Writer delivers %s", clip(text), clip(ref2.Bytes()), clip(got2.Bytes()))
+	}
 }
 
 func (c *run) consumerPart(text []byte) {
